@@ -431,10 +431,30 @@ impl Driver {
         }
     }
 
+    /// Make sure the multishot `PollAdd` on the notifier is armed, so that a
+    /// wake-up written to the eventfd produces a CQE.
+    fn arm_notifier(&mut self) -> io::Result<()> {
+        if self.flags.contains(DriverFlags::NEED_PUSH_NOTIFIER) {
+            #[allow(clippy::useless_conversion)]
+            self.push_raw(
+                PollAdd::new(Fd(self.notifier.as_raw_fd()), libc::POLLIN as _)
+                    .multi(true)
+                    .build()
+                    .user_data(Self::NOTIFY)
+                    .into(),
+            )?;
+            self.flags.remove(DriverFlags::NEED_PUSH_NOTIFIER);
+        }
+        Ok(())
+    }
+
     pub fn flush(&mut self) -> bool {
+        // The caller is going to wait on the ring fd: a wake-up after the flag
+        // is reset below is only visible if the notifier poll is armed.
+        let armed = self.arm_notifier().is_ok();
         let succeed = self.submit_auto(Some(Duration::ZERO), false).is_ok();
         // If submission failed, return true to let the driver wake up immediately.
-        !succeed | self.notifier.reset()
+        !armed | !succeed | self.notifier.reset()
     }
 
     pub fn poll(&mut self, timeout: Option<Duration>) -> io::Result<()> {
@@ -448,17 +468,7 @@ impl Driver {
 
         let need_wait = !self.notifier.reset();
 
-        if self.flags.contains(DriverFlags::NEED_PUSH_NOTIFIER) {
-            #[allow(clippy::useless_conversion)]
-            self.push_raw(
-                PollAdd::new(Fd(self.notifier.as_raw_fd()), libc::POLLIN as _)
-                    .multi(true)
-                    .build()
-                    .user_data(Self::NOTIFY)
-                    .into(),
-            )?;
-            self.flags.remove(DriverFlags::NEED_PUSH_NOTIFIER);
-        }
+        self.arm_notifier()?;
 
         self.submit_auto(timeout, need_wait)?;
 
